@@ -169,7 +169,7 @@ def op_singleton_not_send_sync(rng, spec, m):
     return {"type": t, "which": which}
 
 
-def op_singleton_by_value_never_clone(rng, spec, m):
+def op_singleton_by_value_never_clone(rng, spec, m, only_derived=False):
     """A never-clone, non-Copy singleton taken by value at request time: by a handler, a middleware (wrapping ones
     included), a request-scoped/transient constructor or a generic constructor. The type does implement Clone half of the
     time, so that a compiler that wrongly accepts still produces code that builds."""
@@ -185,11 +185,20 @@ def op_singleton_by_value_never_clone(rng, spec, m):
     consumers += [(x["kind"], xid, x) for (k, xid, x) in _registered_components(spec, m, ("mws",))]
     consumers += [("ctor:" + c["lc"] + (":generic" if c.get("generic_param") else ""), cid, c) for cid, c in spec["ctors"].items()
                   if c["lc"] != "singleton" and c["out"] in used or (c.get("generic_param") and any(u.split("<")[0] == c["out"].split("<")[0] for u in used))]
+    if only_derived:
+        # consumers whose component is derived by the compiler (a wrapping middleware once its Next<C> is bound, a
+        # specialisation of a generic constructor)
+        consumers = [c for c in consumers if c[0] == "wrap" or c[0].endswith(":generic")]
+        spec["types"][t]["clone"] = True
     if not consumers:
         return None
     kind, xid, x = rng.choice(consumers)
     x["ins"] = [i for i in x["ins"] if i[0] != t] + [[t, "val"]]
     return {"type": t, "variant": kind, "consumer": xid}
+
+
+def op_singleton_by_value_never_clone_derived(rng, spec, m):
+    return op_singleton_by_value_never_clone(rng, spec, m, only_derived=True)
 
 
 def op_mut_ref(rng, spec, m):
@@ -323,6 +332,7 @@ OPERATORS = {
     "singleton_registered_in_two_blueprints": op_singleton_registered_twice,
     "singleton_not_send_or_sync": op_singleton_not_send_sync,
     "singleton_by_value_never_clone": op_singleton_by_value_never_clone,
+    "singleton_by_value_never_clone_into_derived_component": op_singleton_by_value_never_clone_derived,
     "mut_ref_of_singleton_transient_or_cin": op_mut_ref,
     "mut_ref_on_constructor_or_wrap": op_mut_on_constructor_or_wrap,
     "clone_if_necessary_without_clone": op_cin_not_clone,
